@@ -55,6 +55,7 @@ static std::string run_child(std::function<void(FILE*)> f, std::string& status, 
         FILE* o = fdopen(fd[1], "w");
         f(o);
         fflush(o);
+        VERIF_COV_DUMP();
         _exit(0);
     }
     ::close(fd[1]);
